@@ -2,11 +2,15 @@
 
 Engine M. Every callee is a deterministic function of its arguments, except a short
 list of *seeded primitives* (iteration over HashMap/HashSet, clocks, random state,
-thread identity) which receive a hidden seed argument. For each function on the
+thread identity, and any operation on process-global mutable state: a `static` with
+interior mutability / `static mut` / thread-local) which receive a hidden seed argument -
+the seed stands for the hash keys, the time, and the history of the process. For each function on the
 load -> compile -> eval -> emit call graph a two-run query asks whether what the
 function returns or writes can differ between two seeds; dependence is propagated up
 the call graph to the entry points. Replay: the real oal-cli run repeatedly in fresh
-processes (fresh hash seeds), outputs compared byte for byte.
+processes (fresh hash seeds) and the real oal_wasm::compile run repeatedly inside one
+process (also after an unrelated compilation and on a second thread), outputs compared
+byte for byte.
 """
 import os
 import re
@@ -22,6 +26,11 @@ SEEDED = re.compile(
     r"(HashSet::<.*>::(iter|drain|retain)$)|"
     r"(<(&(mut )?)?(std::collections::)?Hash(Map|Set)<.*> as IntoIterator>::into_iter$)|"
     r"(SystemTime::now|Instant::now|RandomState::new|thread::current|thread_rng|process::id)")
+# process-global mutable state: a reference to a `static` with interior mutability (or a `static mut`) in a
+# function body. What such a cell holds depends on what ran before in this process (and on other threads), so
+# a call that receives it - fetch_add, load, lock, with, get_or_init ... - is a seeded primitive too.
+GLOBAL = re.compile(r"\{alloc\d+: (?:&|\*const |\*mut |&mut )(?:mut )?[^}]*\b(Atomic\w*|Mutex|RwLock|Once\w*|Lazy\w*|\w*Cell|LocalKey|Condvar|Barrier)\b|"
+                    r"\{alloc\d+: (?:\*mut |&mut )")
 INSENSITIVE = re.compile(
     r"(Iterator>::(any|all|count)(::<.*>)?$)|"
     r"(Iterator>::collect::<(std::collections::)?(HashMap|HashSet|BTreeMap|BTreeSet)<)|"
@@ -37,6 +46,8 @@ PROGRAMS = {
     "refs-and-recursion": "let @a = { 'b? @b };\nlet @b = { 'a? @a, 'n node };\nlet node = { 'left? node, 'right? node };\n"
                           "res /a on get -> <@a> :: <status=404, {}> :: <status=5XX, { 'e str }>;\nres /b on get, put -> <@b>;\n",
     "modules": None,   # filled in below (two modules)
+    "rec-inside-applied-functions": "let tree a = rec x { 'value a, 'children [x] };\nlet pair a b = { 'l tree a, 'r tree b };\n"
+                                    "res /ints on get -> <tree int>;\nres /strs on get -> <tree str> :: <status=404, pair num bool>;\n",
 }
 
 
@@ -64,6 +75,20 @@ def run_twice(n=6, tag="determinism"):
         detail[name] = {"runs": n, "distinct_outputs": distinct, "rc": outs[0][0]}
         if distinct > 1:
             diffs.append("%s: %d distinct outputs in %d fresh processes" % (name, distinct, n))
+    # repeated compilation inside one process (the playground entry point): same bytes every time, also after
+    # an unrelated compilation and on a second thread
+    from vcommon import build_wasmdrv, run
+    drv = build_wasmdrv()
+    for name, src in progs.items():
+        if not src:
+            continue
+        rc, out, t = run([drv], stdin=src, timeout=60, mem_gb=4, extra_env={"WASMDRV_REPEAT": "4", "RUST_BACKTRACE": "0"})
+        first = out.split("\n", 1)[0]
+        detail[name]["in_process"] = first.strip()
+        if rc != 0 or not first.startswith("repeat same="):
+            diffs.append("%s: in-process driver died (rc=%s)" % (name, rc))
+        elif not first.startswith("repeat same=true"):
+            diffs.append("%s: repeated in-process compilation of the same text: %s" % (name, first[len("repeat same=false"):].strip()))
     with open(os.path.join(rdir, "cmd"), "w") as f:
         f.write("#!/bin/sh\ncd /verif && exec ./check C06 --replay %s\n" % rdir)
     return diffs, rdir, detail
@@ -142,12 +167,13 @@ def check():
         work.extend(cs)
     o.extra["functions_on_the_pipeline"] = len(seen)
     o.assumptions = ["every callee outside the seeded list is a deterministic function of its arguments",
-                     "seeded primitives: " + SEEDED.pattern[:200] + " ...",
+                     "seeded primitives: " + SEEDED.pattern[:200] + " ...; plus every call that receives a reference to a static with interior mutability / a static mut (process history)",
                      "order-insensitive consumers (any/all/count, collect/extend into Hash*/BTree* containers) do not propagate a seed",
                      "trait-object and generic calls are resolved by name and arity inside the four dumps; unresolved ones are third-party and deterministic"]
     o.bounds = {"control": "each function body once, all paths; loops one iteration from an arbitrary state", "values": "unbounded"}
     o.outside = ["non-determinism inside third-party crates (serde_yaml, indexmap, sha2, url)", "the logos-generated DFA functions (no hash container in their MIR text)",
-                 "the file system and the environment", "repeated invocation inside one process"]
+                 "the file system and the environment",
+                 "process-global state reached only through third-party crates (the seeded list sees statics referenced from the four crates' own MIR)"]
 
     dependent = {}          # function name -> evidence
     seeded_syms = set()
@@ -157,6 +183,10 @@ def check():
     def is_seeded(callee, fs, xargs=()):
         if SEEDED.search(callee):
             return True
+        for a in xargs:
+            for t in ms.subterms(a):
+                if t[0] == "c" and isinstance(t[2], str) and GLOBAL.search(t[2]):
+                    return True
         if not dependent:
             return False
         # a seed-dependent closure handed to an adaptor makes the adaptor's result seed-dependent
@@ -197,6 +227,7 @@ def check():
     analysed = set()
     seeded_syms_txt = set()
     big = []
+    globals_seen = set()
     while changed and rounds < 12:
         changed = False
         rounds += 1
@@ -209,6 +240,10 @@ def check():
                 if b.cleanup or not b.term:
                     continue
                 ps, pt = mp.stmts_of(b)
+                if any(GLOBAL.search(x) for x in b.stmts) or GLOBAL.search(b.term or ""):
+                    direct = True
+                    globals_seen.add(f.short)
+                    break
                 if pt[0] == "call" and (is_seeded(pt[2], mp.short_name(pt[2])) or
                                         any(a[0] == "const" and "{closure@" in a[1] and cidx.get(re.search(r"\{closure@([^}]+)\}", a[1]).group(1)) is not None
                                             and cidx[re.search(r"\{closure@([^}]+)\}", a[1]).group(1)].name in dependent for a in pt[3])):
@@ -262,6 +297,7 @@ def check():
                 changed = True
     o.extra["functions_executed"] = len(analysed)
     o.extra["skipped_large_functions"] = big
+    o.extra["functions_touching_process_global_state"] = sorted(globals_seen)
     entry_dep = [f.short for f in roots if f.name in dependent]
     chain = [seen[n].short for n in dependent]
     o.extra["seed_dependent_functions"] = chain
@@ -272,11 +308,11 @@ def check():
     probe = [f for M in allmods for f in M.funcs if any(b.term and SEEDED.search(b.term) for b in f.blocks.values())]
     o.extra["functions_with_a_seeded_primitive_anywhere"] = [f.short for f in probe][:12]
     o.samples = [{"query": q["name"], "verdict": q["verdict"]} for q in o.queries[:12]]
-    if entry_dep or tier() == "thorough" or os.environ.get("VERIF_REPLAY_ALWAYS"):
+    if True:   # the real-binary oracle is cheap: always run it (replay of a dependent entry point, or translator validation)
         diffs, rdir, detail = run_twice(8 if tier() == "thorough" else 6)
         o.extra["real_cli_repeated_runs"] = detail
         if entry_dep:
-            what = "emitted document depends on hash iteration order: %s; chain: %s; real oal-cli: %s" % (
+            what = "emitted document depends on a hidden seed (hash iteration order, clock or process history): %s; chain: %s; real code: %s" % (
                 list(dependent.values())[0][:120], " <- ".join(chain[:6]), "; ".join(diffs[:3]))
             if diffs:
                 k = F.match("C06", {"mode": "hash-order", "function": chain[0] if chain else ""})
